@@ -1421,3 +1421,19 @@ case("c02-merge-reads-end-time", "C02", "mutant", [("src/stabilize/persistence/s
 case("c02-jump-leaves-redirect-task", "C02", "mutant", [(H + "jump_to_stage/reset.py", "        if task.status in (WorkflowStatus.RUNNING, WorkflowStatus.REDIRECT):", "        if task.status == WorkflowStatus.RUNNING:")], "C02.R7")
 case("c08-poll-raw-deliver-at", "C08", "mutant", [("src/stabilize/queue/sqlite/queue.py", "datetime(deliver_at) <= datetime('now', 'utc')", "deliver_at <= datetime('now', 'utc')")], "C08.R1")
 case("c10-starttask-while-task-running", "C10", "mutant", [("src/stabilize/recovery.py", "                elif not_started_tasks and not self._before_stages_complete(stage, full_workflow):", "                if not_started_tasks and not self._before_stages_complete(stage, full_workflow):")], None)
+case("c16-refactor-overlay-prefiltered-own", "C16", "refactor", [(H + "start_stage/planner.py", """        merged = ancestor_outputs
+        for key, value in stage.context.items():
+            if key in reducers:
+                # A reducer produced the authoritative value for this key;
+                # do not let the join stage's own context override it.
+                continue
+            if key in inherited or key == "_inherited_keys":
+                continue
+""", """        own = {k: v for k, v in stage.context.items() if k not in inherited and k != "_inherited_keys"}
+        merged = ancestor_outputs
+        for key, value in own.items():
+            if key in reducers:
+                # A reducer produced the authoritative value for this key;
+                # do not let the join stage's own context override it.
+                continue
+""")])
